@@ -14,6 +14,11 @@ FLAVOUR = {
    B. an ARGUMENT-TYPE or API-VARIANT slip: the public API accepts several forms (str / bytes / bytearray / memoryview, str / os.PathLike, list / tuple / generator / mapping, keyword / positional, subclass instances, None vs missing vs empty, int vs numeric string, already-encoded vs text) and one legal form is now handled wrongly while the common form keeps working.
    C. a PERFORMANCE-motivated rewrite: caching (functools.lru_cache, a dict, precomputed attributes), a fast path / early exit, a precompiled or 'simplified' regular expression, replacing a loop by slicing/join/str methods, avoiding a copy - correct for common inputs, wrong for some specific legal ones.
  Ordinary everyday use must keep working - do NOT make a change that the first simple request would expose.""",
+ 7: """This round: make one change of each of these three kinds, each written as a well-meant improvement with a convincing code comment / commit rationale:
+   A. HARDENING: extra validation, sanitising, normalisation, limits or defensive copies added 'for security / robustness' that reject, alter or truncate some LEGAL input (or legal output) that the property covers.
+   B. STANDARDS-MOTIVATED 'correction': the author read an RFC / PEP / WHATWG / ASGI spec paragraph (RFC 7233, 7232, 7230/9110, 6265, 3986, 7578, 2046, PEP 3333, ASGI HTTP/WebSocket spec, the HTML server-sent-events section) and changed the behaviour to follow their reading of it - but the reading is slightly off, or correct for the spec yet incompatible with what this property promises.
+   C. OBSERVABILITY / CONVENIENCE addition: logging, metrics counters, timing, tracing ids, debug repr, `__len__`/`__bool__`/`__eq__`/`__hash__` helpers, context-manager support, caching of a computed attribute - whose side effect (consuming an iterator or a body, touching state, changing truthiness or equality, holding a reference, adding a header, reordering calls) breaks the property in a specific situation.
+ Ordinary everyday use must keep working - do NOT make a change that the first simple request would expose.""",
  6: """This round: make one change of each of these three kinds:
    A. a change in a SHARED module that the property's own code merely uses - baize/utils.py, baize/datastructures.py, baize/requests.py, baize/responses.py, baize/routing.py, baize/staticfiles.py, baize/concurrency.py, baize/exceptions.py, baize/typing.py, baize/multipart.py, a base class or a helper function - so that the property breaks INDIRECTLY (the files listed above as 'directly involved' stay untouched if at all possible).
    B. a classic PYTHON-SEMANTICS slip inside the directly involved code: mutable default argument or class attribute, late-binding closure, `is` vs `==`, `or` used for a default where 0 / '' / empty is legal, bytes vs str mix-up, shallow copy where a deep one is needed (or aliasing a caller's object), exhausted iterator reused, dict/set ordering assumption, exception swallowed by a broad except or by `return` in `finally`, wrong operator precedence, off-by-one in a slice or range, `lower()` vs `casefold()`, regex anchoring / flags / greedy vs lazy, integer division or rounding, `str.strip(chars)` misuse, `sorted` stability or key mistakes.
